@@ -1022,3 +1022,6 @@ def _convert_data_chunk(chunk, raw_timestamps):
 def _convert_channel_data_chunk(channel_chunk, raw_timestamps):
     if not raw_timestamps and isinstance(channel_chunk.data, TimestampArray):
         channel_chunk.data = channel_chunk.data.as_datetime64()
+    elif isinstance(channel_chunk.data, list):
+        # String data is read as a list, convert to an array with the channel's dtype
+        channel_chunk.data = np.array(channel_chunk.data, dtype=np.dtype('O'))
